@@ -56,8 +56,8 @@ META = {
     "level_note": "Trusted: ast.parse/ast.dump/ast.unparse of CPython; the 40-line path/replace helper.",
 }
 PLAN = {
-    "quick": {"shards": 8, "examples": 200, "stdlib": ["bisect", "colorsys", "heapq", "fnmatch", "sched", "graphlib", "keyword", "reprlib"]},
-    "thorough": {"shards": 16, "examples": 6000, "timeout": 3000,
+    "quick": {"shards": 8, "examples": 72, "size": 22, "stdlib_examples": 1, "shrink_seconds": 15, "shrink_calls": 80, "stdlib": ["bisect", "colorsys", "sched", "fnmatch", "keyword", "graphlib", "bisect", "reprlib"]},
+    "thorough": {"shards": 16, "examples": 6000, "size": 34, "stdlib_examples": 6, "timeout": 3000,
                  "stdlib": ["bisect", "colorsys", "heapq", "fnmatch", "sched", "graphlib", "keyword", "reprlib", "shlex", "textwrap",
                             "string", "queue", "copy", "json.encoder", "json.decoder", "base64", "netrc", "numbers", "abc", "glob",
                             "quopri", "stat", "linecache", "getopt", "cmd", "codeop", "contextlib", "operator"]},
@@ -124,6 +124,17 @@ def _expr(draw, depth: int) -> Any:
     if k == "list":
         return ["list", draw(st.booleans()), [_expr(draw, depth - 1) for _ in range(draw(st.integers(0, 3)))]]
     return ["attr", draw(st.integers(0, len(NAMES) - 1)), draw(st.sampled_from(["value", "size", "items"]))]
+
+
+def _const(draw) -> Any:
+    k = draw(st.sampled_from(["num", "num", "str", "bool", "none"]))
+    if k == "num":
+        return ["num", draw(st.integers(0, len(NUMS) - 1))]
+    if k == "str":
+        return ["str", draw(st.integers(0, len(STRS) - 1))]
+    if k == "bool":
+        return ["bool", draw(st.booleans())]
+    return ["none"]
 
 
 def _r(e: Any) -> str:  # noqa: C901
@@ -229,27 +240,27 @@ def _module(draw, size: int) -> dict:
     left = {"n": draw(st.integers(8, size))}
     items: list = []
     classes: list[int] = []
-    for idx in range(draw(st.integers(1, 5))):
+    for idx in range(draw(st.integers(2, 5))):
         if left["n"] <= 0:
             break
-        if draw(st.integers(0, 2)) == 0 or (idx >= 2 and not classes):
-            base = draw(st.sampled_from([None, *classes])) if classes else None
+        if draw(st.booleans()) or (idx >= 2 and not classes):
+            base = draw(st.sampled_from([None, *classes, *classes, *classes])) if classes else None
             members = []
             base_names = _member_names(items, base)
             for m in range(draw(st.integers(1, 4))):
                 mk = draw(st.sampled_from(["method", "method", "var", "unpackvar", "nested"]))
-                over = bool(base_names) and draw(st.booleans())
+                over = bool(base_names) and draw(st.integers(0, 3)) > 0
                 if mk == "method":
                     pool = [n for n in base_names if n.startswith("m")] if over else []
                     name = draw(st.sampled_from(pool)) if pool else f"m{m}"
                     members.append(_method(draw, left, name, bool(pool)))
                 elif mk == "var":
                     pool = [n for n in base_names if n.startswith("v")] if over else []
-                    members.append({"k": "var", "name": draw(st.sampled_from(pool)) if pool else f"v{m}", "e": _expr(draw, 0)})
+                    members.append({"k": "var", "name": draw(st.sampled_from(pool)) if pool else f"v{m}", "e": _const(draw)})
                 elif mk == "unpackvar":
                     pool = [n for n in base_names if n.startswith("v")]
                     n1 = draw(st.sampled_from(pool)) if pool and over else f"v{m}"
-                    members.append({"k": "unpackvar", "names": [n1, f"v{m}x"], "e": [_expr(draw, 0), _expr(draw, 0)]})
+                    members.append({"k": "unpackvar", "names": [n1, f"v{m}x"], "e": [_const(draw), _const(draw)]})
                 else:
                     members.append({"k": "nested", "name": f"N{m}", "members": [_method(draw, left, "m0", False)]})
             classes.append(len(items))
@@ -577,6 +588,9 @@ def _materialise(case: dict, out: Outcome) -> tuple[str, types.ModuleType] | Non
         src = render(mod)
     module = types.ModuleType("vfsut_c28")
     try:
+        import warnings
+
+        warnings.simplefilter("ignore", SyntaxWarning)
         exec(compile(src, "<vf-c28>", "exec", dont_inherit=True), module.__dict__)  # noqa: S102
     except SyntaxError as exc:
         out.inconclusive = f"generator-syntax-error:{exc.msg}" if mod["kind"] == "gen" else "pygen-syntax-error"
@@ -816,4 +830,4 @@ def shard(ctx) -> None:
     for name in mods:
         strat = hst.fixed_dictionaries({"module": hst.just({"kind": "stdlib", "name": name}), "ops": hst.just([]),
                                         "configs": hst.lists(_config(), min_size=2, max_size=2)})
-        run_cases(ctx, strat, evaluate, int(ctx.params.get("stdlib_examples", 2)))
+        run_cases(ctx, strat, evaluate, int(ctx.params.get("stdlib_examples", 2)), shrink=False)
